@@ -14,6 +14,8 @@ from nutree.diff import DiffClassification as DC
 
 ID = "C11"
 LEVEL = "exploration"
+TECHNIQUE = 'property-based testing with projection laws on a single diff result (metamorphic / relational oracle)'
+LEVEL_TEXT = 'exploration: generated pairs (edit scripts and independent trees) x ordered x reduce; eight laws relate the single result to both inputs by label path'
 RULE = (
     "case = (T0 spec over a small alphabet with clones, T1 = T0 after a random edit script (remove / insert / move / "
     "reorder / rename subtree) or an independently drawn tree, ordered, reduce). Oracle: projection laws on the single "
